@@ -107,6 +107,56 @@ type Case struct {
 	// the `checkbanner` line(s) of the configuration file, verbatim (overrides Marker / BannerRe)
 	HasCfgLine bool   `json:"has_cfg_line,omitempty"`
 	CfgLine    string `json:"cfg_line,omitempty"`
+	// PAN-OS: the members of the device as the info file lists them (name_list <dev>-a, <dev>-b, … with
+	// one address each), comma separated, each "<ha>:<hostname>": ha = a (Active-Passive, active) or
+	// p (passive); hostname = what the machine that answers at that member's address reports in its
+	// configuration (%a %b %c = the name of member a/b/c, anything else verbatim).  Overrides HA.
+	// "a:%b,a:%a": the machine reached at a's address is active but calls itself b.
+	Members string `json:"members,omitempty"`
+}
+
+// members: (ha letter, reported hostname) per member of Members
+func (c Case) members() (ha []string, host []string) {
+	if c.Backend != "panos" || c.Members == "" {
+		return nil, nil
+	}
+	for _, m := range strings.Split(c.Members, ",") {
+		h, n, _ := strings.Cut(m, ":")
+		for _, l := range []string{"a", "b", "c"} {
+			n = strings.ReplaceAll(n, "%"+l, c.dev()+"-"+l)
+		}
+		ha = append(ha, h)
+		host = append(host, n)
+	}
+	return
+}
+
+// addressed: index of the member approve will work with (the first one in the order of the name
+// list whose HA state permits it), -1 if there is none.  Specification side.
+func (c Case) addressed() int {
+	ha, _ := c.members()
+	for i, h := range ha {
+		if h == "a" {
+			return i
+		}
+	}
+	return -1
+}
+
+// expName: the name the device is addressed as — the expected device name.
+func (c Case) expName() string {
+	if k := c.addressed(); k >= 0 {
+		return c.names()[k]
+	}
+	return c.dev()
+}
+
+// haOK (specification side): some member may be configured.
+func (c Case) haOK() bool {
+	if ha, _ := c.members(); ha != nil {
+		return c.addressed() >= 0
+	}
+	return haPermits(c.HA)
 }
 
 // configured: what the configuration file says about the banner (specification side): the
@@ -241,10 +291,10 @@ func haStatePermits(h HAState) bool {
 // hostname, ha, marker.
 func (c Case) failedInterlocks() []string {
 	var l []string
-	if c.Backend != "nsx" && c.reportedName() != c.dev() {
+	if c.Backend != "nsx" && c.reportedName() != c.expName() {
 		l = append(l, "hostname")
 	}
-	if c.Backend == "panos" && !haPermits(c.HA) {
+	if c.Backend == "panos" && !c.haOK() {
 		l = append(l, "ha")
 	}
 	if c.Backend == "panos" && strings.ContainsAny(c.marks(), "us") {
@@ -277,7 +327,7 @@ func (c Case) diagNamesInterlock(r runResult) bool {
 			lm := strings.ToLower(m)
 			switch il {
 			case "hostname":
-				if strings.Contains(lm, "device name") && strings.Contains(m, c.dev()) && strings.Contains(m, c.reportedName()) &&
+				if strings.Contains(lm, "device name") && strings.Contains(m, c.expName()) && strings.Contains(m, c.reportedName()) &&
 					strings.Contains(lm, "expected") {
 					return true
 				}
@@ -333,6 +383,13 @@ func (c Case) canon() string { return JSONStr(c) }
 func (c Case) isHTTP() bool { return c.Backend == "panos" || c.Backend == "nsx" }
 
 func (c Case) reportedName() string {
+	if _, host := c.members(); host != nil {
+		// what the machine reports that approve works with (none permits: the first one)
+		if k := c.addressed(); k >= 0 {
+			return host[k]
+		}
+		return host[0]
+	}
 	if c.Reported != "" {
 		return c.Reported
 	}
@@ -356,10 +413,13 @@ func (c Case) reportedName() string {
 // interlock that must refuse the approve run (specification side), "" if none applies.
 func (c Case) interlock() string {
 	switch {
-	case c.Backend != "nsx" && c.reportedName() != c.dev():
-		// every backend compares the complete names, nothing else counts as the same name
+	case c.Backend == "panos" && c.Members != "" && !c.haOK():
+		return "ha" // no member to work with: nobody's name is ever compared
+	case c.Backend != "nsx" && c.reportedName() != c.expName():
+		// every backend compares the complete names, nothing else counts as the same name; a device
+		// with several members is compared with the name of the member it was addressed as
 		return "hostname"
-	case c.Backend == "panos" && !haPermits(c.HA):
+	case c.Backend == "panos" && !c.haOK():
 		return "ha"
 	case c.Backend == "panos" && strings.ContainsAny(c.marks(), "us"):
 		return "marker"
@@ -466,6 +526,13 @@ func (c Case) httpNetspoc() string {
 }
 
 func (c Case) haStates() []HAState {
+	if ha, _ := c.members(); ha != nil {
+		var l []HAState
+		for _, h := range ha {
+			l = append(l, HAState{"yes", "Active-Passive", map[string]string{"a": "active", "p": "passive"}[h]})
+		}
+		return l
+	}
 	switch {
 	case c.HA == "passive-then-active":
 		return []HAState{{"yes", "Active-Passive", "passive"}, {"yes", "Active-Passive", "active"}}
@@ -488,6 +555,9 @@ var haAll = []string{"off",
 // memberHostnames: the host name each member of a PAN-OS pair has in its own configuration (its
 // entry of the name list); the member that may be configured reports what the case says.
 func (c Case) memberHostnames() []string {
+	if _, host := c.members(); host != nil {
+		return host
+	}
 	if c.Backend == "panos" && c.HA == "passive-then-active" {
 		return []string{c.dev() + "-a", c.reportedName()}
 	}
@@ -495,6 +565,13 @@ func (c Case) memberHostnames() []string {
 }
 
 func (c Case) names() []string {
+	if ha, _ := c.members(); ha != nil {
+		var l []string
+		for i := range ha {
+			l = append(l, c.dev()+"-"+string(rune('a'+i)))
+		}
+		return l
+	}
 	if c.Backend == "panos" && c.HA == "passive-then-active" {
 		return []string{c.dev() + "-a", c.dev()}
 	}
@@ -1144,6 +1221,19 @@ func matrix(ctx *Ctx, prop string) []Case {
 			}
 		}
 	}
+	// PAN-OS device with several members (name_list / ip_list of two or three): the machine that answers
+	// at a member's address reports its own name, ANOTHER member's name, or a name that is not in the list
+	for _, mem := range []string{"a:%a,a:%b", "a:%b,a:%a", "a:%b,p:%a", "a:zzz,a:%b", "p:%a,a:%b", "p:%a,a:%a", "p:%b,a:%a", "p:%b,a:zzz",
+		"p:%a,p:%b", "a:%a,p:%b,p:%c", "a:%c,p:%b,p:%a", "p:%a,p:%b,a:%c", "p:%a,p:%b,a:%a", "p:%c,a:%a,a:%b", "p:%a,a:%b,a:%a"} {
+		for _, fr := range fronts {
+			for _, pend := range []int{0, 1} {
+				if fr == "do-approve" && pend == 0 && !ctx.Thorough() {
+					continue
+				}
+				out = append(out, Case{Backend: "panos", Front: fr, Host: "ok", Marker: "present", HA: "off", Pending: pend, FaultAt: -1, Members: mem})
+			}
+		}
+	}
 	// PAN-OS with several managed vsys, marker present/absent per vsys in every order
 	for _, marks := range []string{"mm", "mu", "um", "uu", "mmu", "mum", "umm", "uum", "umu", "muu"} {
 		for _, fr := range fronts {
@@ -1483,6 +1573,9 @@ func judge(res *Result, o outcome, prop string, mu *sync.Mutex) {
 	}
 	if c.DevName != "" || c.Reported != "" {
 		res.Count("expected/reported name:" + c.dev() + "/" + c.reportedName())
+	}
+	if c.Members != "" {
+		res.Count("members (ha:reported hostname per entry of name_list):" + c.Members)
 	}
 	if c.HasCfgLine {
 		res.Count("config line:" + strconv.Quote(c.CfgLine))
